@@ -125,13 +125,20 @@ func VerifIncludeCycle() {
 		v.FSWrite("a.knut", "include \"c.knut\"\n")
 		v.FSWrite("b.knut", "include \"c.knut\"\n")
 		v.FSWrite("c.knut", "2020-01-01 price USD 0.9 CHF\n")
+	case 4: // no cycle, three levels down: b includes c and d, and c includes d as well
+		v.FSWrite("root.knut", "include \"a.knut\"\n")
+		v.FSWrite("a.knut", "include \"b.knut\"\n")
+		v.FSWrite("b.knut", "include \"c.knut\"\ninclude \"d.knut\"\n")
+		v.FSWrite("c.knut", "include \"d.knut\"\n2020-01-01 open Assets:A\n")
+		v.FSWrite("d.knut", "2020-01-01 price USD 0.9 CHF\n")
 	}
+	acyclic := v.Param("graph") >= 3
 	_, err, terminated := zzLoadTreeBounded(v.FSPath("root.knut"), 12)
-	v.AssertExcept(terminated, "loader-terminates", "C14-F21", v.Param("graph") != 3)
-	if terminated && v.Param("graph") != 3 {
+	v.AssertExcept(terminated, "loader-terminates", "C14-F21", !acyclic)
+	if terminated && !acyclic {
 		v.Assert(err != nil, "include-cycle-is-an-error")
 	}
-	if terminated && v.Param("graph") == 3 {
+	if terminated && acyclic {
 		v.Assert(err == nil, "acyclic-graph-is-loaded")
 	}
 }
